@@ -11,6 +11,7 @@ macro "goodp" : tactic => `(tactic| repeat' (first
   | exact good_fail
   | exact good_string
   | exact good_nbt
+  | exact good_nbtC
   | exact good_component _
   | exact good_mono good_props (by decide)
   | exact good_mono (good_lastSeen _) (by decide)
@@ -279,6 +280,14 @@ theorem g_playerinfo_Upsert (c : Ctx) : GoodP (schemaOf "playerinfo.Upsert" c) :
   refine ⟨_, rfl, ?_⟩
   goodp
 
+theorem g_packet_JoinGame (c : Ctx) : GoodP (schemaOf "packet.JoinGame" c) := by
+  refine ⟨_, rfl, ?_⟩
+  goodp
+
+theorem g_packet_Respawn (c : Ctx) : GoodP (schemaOf "packet.Respawn" c) := by
+  refine ⟨_, rfl, ?_⟩
+  goodp
+
 /-- every modelled packet schema, in every context -/
 theorem all_good (name : String) (hn : name ∈ fullTypes ++ opaqueTypes) (c : Ctx) : GoodP (schemaOf name c) := by
   simp only [fullTypes, opaqueTypes, List.cons_append, List.nil_append, List.mem_cons, List.mem_nil_iff, or_false] at hn
@@ -400,7 +409,11 @@ theorem all_good (name : String) (hn : name ∈ fullTypes ++ opaqueTypes) (c : C
   · exact g_title_Legacy c
   rcases hn with rfl | hn
   · exact g_chat_SystemChat c
+  rcases hn with rfl | hn
+  · exact g_playerinfo_Upsert c
+  rcases hn with rfl | hn
+  · exact g_packet_JoinGame c
   subst hn
-  exact g_playerinfo_Upsert c
+  exact g_packet_Respawn c
 
 end Gate.C05
